@@ -56,8 +56,11 @@ def build() -> Check:
         if puts:
             if not gk or gk[-1][1] is not False:
                 b_guard.append(("an update reaches the queue without having passed the orphan guard", t))
-            if not enters or not exits or not (enters[0] < puts[0] and exits[0] < puts[0]):
-                b_lock.append(("guard/tree update are not completed under the parent-done lock before the enqueue", t))
+            # the update is enqueued while the lock that covered its guard is still held: otherwise an ancestor can be handed its completion
+            # record between the guard and the put(), and this update reaches the backend after it
+            if not enters or not (enters[0] < puts[0]) or any(x < puts[0] for x in exits):
+                b_lock.append(("the update is not enqueued under the parent-done lock that covered its orphan guard (check-then-enqueue window: a completion "
+                               "record of an ancestor can slip in between)", t))
         for i, e in enumerate(evs):
             tree_op = (e.kind == "EXT" and ("_parent_to_children" in e.data["recv"] or "_parent_done" in e.data["recv"] or e.data["recv"].startswith("{}["))) \
                 or e.kind == "MARK_ORPHANS"
@@ -285,6 +288,30 @@ def _finish_executor_rules(ck, prog, pm):
                 if any(e.kind in ("USER", "CKPT") for e in after) or not (t.exc_class() or "").endswith("OrphanedChildException"):
                     bad.append(("an orphan rejection does not stop the operation", t))
         ck.ob("R6.first-time-operation-checks-first", cls_construct(ci), not bad, (bad[0][0] + ": " + trace_sig(bad[0][1])) if bad else "", cell=ABSENT)
+        # ... and the same for an operation that is resumed: found STARTED / READY (or a summarised context whose body is run again), its user code
+        # runs in this call as well - in an orphaned branch that is "the next durable operation", which must stop it before the user function runs
+        from sa.common import applicable_cells as _ac
+        for name2, ci2, ot2, st2 in _ac(pm):
+            if ci2 is not ci or st2 == ABSENT:
+                continue
+            badr = []
+            n_res = 0
+            for t in pm.run_cell(ci, st2, faults=False):
+                evs = t.events
+                first_eff = next((i for i, e in enumerate(evs) if e.kind == "USER" and e in user_events(t, "user")), None)
+                if first_eff is None:
+                    continue
+                n_res += 1
+                gate = next((i for i, e in enumerate(evs) if e.kind in ("CKPT", "ORPHANCHECK")), None)
+                oc_ = [e for e in evs[:first_eff] if e.kind == "ORPHANCHECK"]
+                if oc_ and not any(e.data.get("id") == "operation_identifier.operation_id" and e.data.get("parent") == "operation_identifier.parent_id" for e in oc_) \
+                        and not any(e.kind == "CKPT" for e in evs[:first_eff]):
+                    badr.append((f"the orphan query before the user code asks about id={oc_[0].data.get('id')} parent={oc_[0].data.get('parent')}, not about this operation", t))
+                if gate is None or gate > first_eff:
+                    badr.append((f"an operation found {st2} enters its user code without any orphan check before it (no checkpoint, no query of the orphan state): in a "
+                                 "branch whose parent completed, the user function runs after the completion record", t))
+            if n_res:
+                ck.ob("R6.resumed-operation-checks-first", cls_construct(ci), not badr, (badr[0][0] + ": " + trace_sig(badr[0][1])) if badr else "", cell=st2)
     ck.floor("first_time_user_entries", n_first, 3)
 
     # who may catch the orphan exception
